@@ -6,6 +6,8 @@ use crate::p3::na::Unit;
 mod ext;
 #[path = "c19_acc.rs"]
 mod acc;
+#[path = "c19_hf2.rs"]
+mod hf2s;
 
 type P3 = d3::Point<f64>;
 fn fmesh(m: &(Vec<P3>, Vec<[u32; 3]>)) -> String {
@@ -87,7 +89,7 @@ pub fn exec(func: &str, a: &mut Args) -> String {
         "ball_trimesh" => { let r = a.f(); let nt = a.u() as u32; let np = a.u() as u32; fmesh(&Ball::new(r).to_trimesh(nt, np)) }
         "capsule_trimesh" => { let hh = a.f(); let r = a.f(); let nt = a.u() as u32; let np = a.u() as u32; fmesh(&Capsule::new_y(hh, r).to_trimesh(nt, np)) }
         "cuboid_trimesh" => { let he = d3::v(a); fmesh(&Cuboid::new(he).to_trimesh()) }
-        _ => { if let Some(s) = ext::e3::exec(func, a) { s } else if let Some(s) = ext::e2::exec(func, a) { s } else if let Some(s) = acc::a3::exec(func, a) { s } else if let Some(s) = acc::a2::exec(func, a) { s } else { "nofn".into() } }
+        _ => { if let Some(s) = ext::e3::exec(func, a) { s } else if let Some(s) = ext::e2::exec(func, a) { s } else if let Some(s) = acc::a3::exec(func, a) { s } else if let Some(s) = acc::a2::exec(func, a) { s } else if let Some(s) = hf2s::h2::exec(func, a) { s } else { "nofn".into() } }
     }
 }
 
@@ -188,5 +190,6 @@ pub fn gen(r: &mut Rng, thorough: bool) -> Vec<(String, String)> {
     gen_topo(r, thorough, &mut v);
     ext::g::gen(r, thorough, &mut v);
     acc::g::gen(r, thorough, &mut v);
+    hf2s::h2::gen(r, thorough, &mut v);
     v
 }
